@@ -96,4 +96,20 @@ Definition run_lower (cmd : string) (arg : sexp) : sexp :=
       end
     | _ => bad "lower_einsum_dot: expected (d1 d2 dout graph)"
     end
+  else if String.eqb cmd "lower_preserve" then
+    match arg with
+    | L [fn; L extra; kwlit; din; dout; g] =>
+      match dS fn, dS kwlit, dec_dims din, dec_dims dout, dTm 500 g with
+      | Some fn, Some kwlit, Some din, Some dout, Some g =>
+        let ex := fold_right (fun e acc => match dS e, acc with Some x, Some l => Some (x :: l) | _, _ => None end) (Some []) extra in
+        match ex, single din, single dout with
+        | Some ex, Some pin, Some pout =>
+          let m := lower_preserve fn ex kwlit pin pout in
+          L [A "lower"; sB (preserve_ok pin pout); sB (equiv m g); sB (wf_tm m); sB (wf_tm g); sNat (tsize (norm m)); sNat (tsize (norm g))]
+        | _, _, _ => A "not_single"
+        end
+      | _, _, _, _, _ => bad "lower_preserve: cannot decode"
+      end
+    | _ => bad "lower_preserve: expected (name extra kwlit din dout graph)"
+    end
   else bad "lower: unknown command".
